@@ -62,6 +62,11 @@ func LoadProgram(dir string, patterns []string) (*Program, error) {
 		}
 	}
 	for fn := range ssautil.AllFunctions(prog) {
+		// generic functions and their synthetic instantiation wrappers print alike: keep
+		// the one written in the source (deterministically)
+		if old, dup := P.funcs[fn.String()]; dup && old.Synthetic == "" && fn.Synthetic != "" {
+			continue
+		}
 		P.funcs[fn.String()] = fn
 	}
 	for _, sp := range P.pkgs {
@@ -92,7 +97,24 @@ func (P *Program) FindFunc(key string) *ssa.Function {
 				return fn
 			}
 		}
-		return nil
+		// generic functions: match the full name, preferring the body over the
+		// synthetic instantiation wrappers
+		full := path + "." + rel
+		if strings.HasPrefix(rel, "(*") {
+			full = "(*" + path + "." + rel[2:]
+		} else if strings.HasPrefix(rel, "(") {
+			full = "(" + path + "." + rel[1:]
+		}
+		var cand *ssa.Function
+		for _, fn := range P.funcs {
+			if fn.String() == full && len(fn.Blocks) > 0 {
+				if fn.Synthetic == "" {
+					return fn
+				}
+				cand = fn
+			}
+		}
+		return cand
 	}
 	return P.funcs[key]
 }
